@@ -27,6 +27,18 @@ fn cases(ob: &str) -> Vec<String> {
     for (pfx, radix) in [("#b", 2u32), ("#o", 8), ("#x", 16), ("#d", 10), ("", 10)] {
         out.push(format!("long:{}:{}", pfx, radix));
     }
+    // just past the 64-bit range: must become a float close to the true value, never wrap
+    for l in ["18446744073709551616", "18446744073709551617", "18446744073709551619", "-18446744073709551617", "000018446744073709551616", "#d18446744073709551618", "9223372036854775808", "-9223372036854775809"] {
+        out.push(format!("big:{}", l));
+    }
+    // magnitudes no double can hold: rejected, never infinity or NaN
+    out.push(format!("huge:#x{}", "F".repeat(256)));
+    out.push(format!("huge:#x1{}", "0".repeat(256)));
+    out.push(format!("huge:-#x{}", "F".repeat(260)));
+    out.push(format!("huge:#b1{}", "0".repeat(1024)));
+    out.push(format!("huge:#o1{}", "0".repeat(342)));
+    for l in ["1e309", "1e400", "-1e309", "2.5e310", "17976931348623157e293", "1e99999"] { out.push(format!("huge:{}", l)); }
+    out.push(format!("huge:1{}", "0".repeat(309)));
     out.push("printer:".into());
     if ob.contains("parse_long_integer") { out.sort_by_key(|c| !c.starts_with("long")); }
     out
@@ -82,6 +94,27 @@ fn check(case: &str) -> Option<String> {
                 }
             }
             None
+        }
+        "big" => {
+            let lit = p[1];
+            let digits: String = lit.chars().filter(|c| c.is_ascii_digit()).collect();
+            let mag: f64 = digits.trim_start_matches('0').parse().ok()?;
+            let want = if lit.starts_with('-') { -mag } else { mag };
+            match lexpr::from_str(lit) {
+                Ok(v) => {
+                    if lit == "9223372036854775808" { return if v.as_u64() == Some(1u64 << 63) { None } else { Some(format!("from_str({:?}) = {}", lit, v)) }; }
+                    match v.as_f64() { Some(g) if v.is_f64() && ((g - want) / want).abs() <= 2f64.powi(-50) => None, _ => Some(format!("from_str({:?}) = {:?}, the literal denotes about {:e} (outside the 64-bit integer range: a float approximating it)", lit, v, want)) }
+                }
+                Err(e) => Some(format!("from_str({:?}) fails: {}", lit, e)),
+            }
+        }
+        "huge" => {
+            let lit = p[1];
+            match std::panic::catch_unwind(|| lexpr::from_str(lit)) {
+                Err(_) => Some(format!("from_str of a {}-byte literal {:.20}... panics", lit.len(), lit)),
+                Ok(Ok(v)) => match v.as_f64() { Some(g) if !g.is_finite() => Some(format!("from_str({:.24}...) = {:?}: a magnitude too large for a double must be rejected, never returned as infinity or NaN", lit, g)), Some(_) => Some(format!("from_str({:.24}...) = {} although no double can hold the value", lit, v)), None => Some(format!("from_str({:.24}...) = {}", lit, v)) },
+                Ok(Err(_)) => None,
+            }
         }
         "long" => {
             let f: Vec<&str> = p[1].split(':').collect();
